@@ -33,6 +33,7 @@ pub fn run(pid: &str, c: &Case) {
         "C03" => c03(c),
         "C09" => c09(c),
         "C01" => { if c.s("part") == "B" { crate::ikprops::ik_search(c, "C01") } else { crate::ikprops::c01(c) } }
+        "C02" => crate::ikprops::c02(c),
         "C04" => crate::ikprops::c04(c),
         "C06" => crate::ikprops::c06(c),
         "C08" => crate::ikprops::c08(c),
